@@ -27,6 +27,7 @@ import (
 	"crypto/subtle"
 	"encoding/hex"
 	"fmt"
+	"hash/fnv"
 	"math"
 	"reflect"
 	"sort"
@@ -382,6 +383,7 @@ type c12Stats struct {
 	multiByteStr                           int
 	longBy                                 map[string]bool
 	subEmptyDeep, subEmptyDeep3, elemEmpty int
+	multiList, multiMsgList                int
 }
 
 func c12IsZero(fd protoreflect.FieldDescriptor, v C12Val) bool {
@@ -475,6 +477,30 @@ func c12ScalarStats(fd protoreflect.FieldDescriptor, v C12Val, st *c12Stats, ctx
 func c12Walk(md protoreflect.MessageDescriptor, tree *C12Msg, depth int, st *c12Stats) {
 	if depth > st.depth {
 		st.depth = depth
+	}
+	// non-empty repeated fields of this message, by element type
+	var elemTypes map[string]int
+	for i := range tree.F {
+		f := &tree.F[i]
+		if len(f.L) == 0 {
+			continue
+		}
+		if fd := md.Fields().ByNumber(protoreflect.FieldNumber(f.Num)); fd != nil && fd.IsList() {
+			k := fd.Kind().String()
+			if fd.Kind() == protoreflect.MessageKind {
+				k = string(fd.Message().FullName())
+			}
+			if elemTypes == nil {
+				elemTypes = map[string]int{}
+			}
+			elemTypes[k]++
+			if elemTypes[k] == 2 {
+				st.multiList++
+				if fd.Kind() == protoreflect.MessageKind {
+					st.multiMsgList++
+				}
+			}
+		}
 	}
 	for i := range tree.F {
 		f := &tree.F[i]
@@ -590,6 +616,8 @@ func c12Classes(origin string, tree *C12Msg, ty c12Type) ([]string, bool) {
 	add(st.subEmptyDeep, "sub_empty_depth>=2")
 	add(st.subEmptyDeep3, "sub_empty_depth>=4")
 	add(st.elemEmpty, "list_elem_empty")
+	add(st.multiList, "lists_same_elem_type>=2")
+	add(st.multiMsgList, "message_lists_same_elem_type>=2")
 	add(st.optSet, "opt_nonzero")
 	add(st.optZero, "opt_zero")
 	add(st.mapPop, "map_populated")
@@ -840,13 +868,48 @@ func c12Judge(m, want proto.Message, ty c12Type, vtFirst bool) (verdict string, 
 			continue
 		}
 		if earlier := last[useVT]; earlier != nil {
+			// the step is a function of (type, bytes, decoder) only, not of the history that led
+			// to the value: once per process for identical encodings (a replay starts fresh)
+			if c12IndepSeen(ty, b1, useVT, false) {
+				continue
+			}
 			step = fmt.Sprintf("independence of decoded messages (vt=%v)", useVT)
 			if v := c12Independence(ty, want, earlier, b1, useVT, hist); v != "" {
 				return v, hist, hasVT
 			}
+			c12IndepSeen(ty, b1, useVT, true)
 		}
 	}
 	return "", hist, hasVT
+}
+
+var c12IndepDone = map[uint64]struct{}{}
+
+func c12IndepKey(ty c12Type, b []byte, useVT bool) uint64 {
+	h := fnv.New64a()
+	h.Write([]byte(ty.md.FullName()))
+	if useVT {
+		h.Write([]byte{1})
+	} else {
+		h.Write([]byte{0})
+	}
+	h.Write(b)
+	return h.Sum64()
+}
+
+// c12IndepSeen: with mark = false asks whether the step already PASSED for this encoding,
+// with mark = true records that it did (failures are never memoised, so a failing case
+// fails again when rapid re-runs it while shrinking).
+func c12IndepSeen(ty c12Type, b []byte, useVT, mark bool) bool {
+	k := c12IndepKey(ty, b, useVT)
+	c12CountMu.Lock()
+	defer c12CountMu.Unlock()
+	if mark {
+		c12IndepDone[k] = struct{}{}
+		return true
+	}
+	_, ok := c12IndepDone[k]
+	return ok
 }
 
 var c12Ones []byte
